@@ -7,6 +7,7 @@ from vlib import coqlit as L
 from vlib.exactq import ExactQ
 from C19_util import FQ, frac_of
 import C19_hist
+import C19_float
 
 PID = "C19"
 PROP_FILES = ["Prop", "PropR", "PropTies"]
@@ -643,6 +644,10 @@ FAMILIES = {
                      lit_resample, nontrivial),
   "hist": Family("hist", IMPORTS, "list any_case", "corr_hist", "holds_hist", C19_hist.gen_hist, C19_hist.run_hist,
                  C19_hist.lit_hist, C19_hist.nontrivial_hist),
+  "fmc": Family("fmc", IMPORTS, "fmc_case", "corr_fmc", "holds_fmc", C19_float.gen_fmc, C19_float.run_fmc,
+                C19_float.lit_fmc, C19_float.nontrivial_f),
+  "ftab": Family("ftab", IMPORTS, "ftab_case", "corr_ftab", "holds_ftab", C19_float.gen_ftab, C19_float.run_ftab,
+                 C19_float.lit_ftab, C19_float.nontrivial_f),
   "osc": Family("osc", IMPORTS, "o_case", "corr_osc", "holds_osc", gen_osc, run_osc, lit_osc, nontrivial),
 }
 
